@@ -70,11 +70,13 @@ def run(pm, ctx):
 
     guards = normalising_guards(f)
     whiles = [n for n in cfg.nodes if isinstance(n, ast.While)]
-    outer = [w for w in whiles if "_n_selected_features()" in norm_src(w.test)]
+    # the path loop is the loop that contains the training loop (identified by nesting, not by the spelling of its test)
+    outer = [w for w in whiles if any(isinstance(n, ast.While) and n is not w for n in ast.walk(w))]
     inner = [w for w in whiles if w not in outer]
     if len(outer) != 1 or len(inner) != 1:
         raise AnalysisError("anchor vanished: the two loops of _path")
     W, Wi = outer[0], inner[0]
+    Wi_top = next((b for b in W.body if b is Wi or _within(Wi, b)), None)      # the statement of the path loop that holds the training loop
     # ------------------------------------------------------------------ a
     mults = [s for s in W.body if isinstance(s, ast.AugAssign) and isinstance(s.op, ast.Mult) and isinstance(s.target, ast.Name)]
     site = "_path: progress of the outer loop"
@@ -366,8 +368,39 @@ def run(pm, ctx):
                 cj = [norm_src(v) for c in uc for v in (c.test.values if isinstance(c.test, ast.BoolOp) and isinstance(c.test.op, ast.And) else [c.test])]
                 if not any(c in ("iteration_gemini_score >= best_gemini_score", "iteration_gemini_score > best_gemini_score") for c in cj):
                     probs.append("the best score is raised without comparing with the previous best")
-                if not any(c in ("clf._n_selected_features() == X.shape[1]", "X.shape[1] == clf._n_selected_features()") for c in cj):
+                # the all-features test: the number of selected features of the model AS TRAINED IN THIS STEP equals the number of features
+                COUNT = "clf._n_selected_features()"
+                allf = None         # None: no such test; "ok"; or a description of what is wrong
+                rdW = cfg.reaching()
+                for c_if in uc:
+                    for v in (c_if.test.values if isinstance(c_if.test, ast.BoolOp) and isinstance(c_if.test.op, ast.And) else [c_if.test]):
+                        if not (isinstance(v, ast.Compare) and len(v.ops) == 1 and isinstance(v.ops[0], ast.Eq)):
+                            continue
+                        sides = [v.left, v.comparators[0]]
+                        if not any(norm_src(x) in ("X.shape[1]", "len(X[0])", "clf.n_features_in_") for x in sides):
+                            continue
+                        other = [x for x in sides if norm_src(x) not in ("X.shape[1]", "len(X[0])", "clf.n_features_in_")]
+                        if len(other) != 1:
+                            continue
+                        o = other[0]
+                        if norm_src(o) in (COUNT, COUNT + ".item()"):
+                            allf = "ok"
+                        elif isinstance(o, ast.Name):
+                            defs = rdW.get(c_if, {}).get(o.id, frozenset())
+                            top = {d: next((b for b in W.body if d is b or (d is not ENTRY and _within(d, b))), None) for d in defs}
+                            fresh = all(d is not ENTRY and isinstance(d, ast.Assign) and norm_src(d.value) in (COUNT, COUNT + ".item()") and top[d] is not None
+                                        and c_if in W.body and Wi_top is not None and W.body.index(Wi_top) < W.body.index(top[d]) < W.body.index(c_if) for d in defs) and bool(defs)
+                            if fresh:
+                                allf = "ok"
+                            elif all(d is not ENTRY and isinstance(d, ast.Assign) and norm_src(d.value) in (COUNT, COUNT + ".item()") for d in defs) and defs:
+                                allf = (f"the all-features test reads `{o.id}`, counted before the training of the current step (its definitions: "
+                                        f"{sorted(set(getattr(d, 'lineno', 0) for d in defs))}): the step that discards the first features can still raise the best score")
+                            else:
+                                allf = allf or None
+                if allf is None:
                     probs.append("the best score can be raised after features were discarded (all-features test missing)")
+                elif allf != "ok":
+                    probs.append(allf)
                 if conds and uc and uc[0] in W.body and conds[0] in W.body and W.body.index(uc[0]) > W.body.index(conds[0]):
                     probs.append("the snapshot test runs before the best score of the step is updated")
             # initial best score is the validation score of the unpenalised fit
